@@ -311,8 +311,11 @@ def wd_annot():
 
 
 def expected_view(schema, forest, wd):
-    """what print -> parse returns: under the tagged modes the tagged term nodes carry the annotation as metadata"""
+    """what print -> parse returns: under the tagged modes the tagged term nodes carry the annotation as metadata; without
+    LYD_PRINT_WITHSIBLINGS only the first top-level node"""
     out = [n.clone() for n in forest]
+    if wd.startswith("single:"):
+        out, wd = out[:1], wd[7:]
     if wd not in ("all-tag", "impl-tag") or not wd_annot():
         return out
 
@@ -355,7 +358,7 @@ def gen_cases(cx, rng):
 
     idx = 0
     # 1. random schemas and trees, every with-defaults mode
-    for _ in range(cx.n(40, 400)):
+    for _ in range(cx.n(32, 400)):
         idx += 1
         rev = rng.choice([None, None, b"2019-02-28", b"2000-01-01", b"2127-12-31"])
         s = gen_schema(rng, idx, depth=rng.choice([2, 3, 4]))
@@ -440,13 +443,21 @@ def gen_cases(cx, rng):
         nums = [tg.DN(ll, str(2**64 - 1 - i).encode()) for i in range(rng.choice([0, 3, cx.n(50, size_max // 13 + 2)]))]
         add(s, [tg.DN(s.top[0], None, rows + nums), tg.DN(s.top[1], b"true")], "explicit", "chunk-population", None, n=n)
     # 4d. metadata: annotations of the module itself, every type, on any node
-    for _ in range(cx.n(10, 100)):
+    for _ in range(cx.n(8, 100)):
         idx += 1
         rev = rng.choice([None, b"2021-11-30"])
         s = gen_schema(rng, idx, depth=rng.choice([2, 3]))
         s.annots = [(nm, rand_ty(rng, key=True)) for nm in rng.sample(["hint", "tag", "a-b", "x1", "origin"], rng.randrange(1, 4))]
         g = Gen(rng, s, density=0.9, max_inst=3)
         add(s, flag_tree(rng, g.tree()), rng.choice(WDS), "meta", rev)
+    # 4e. single-tree mode: lyd_print_tree without LYD_PRINT_WITHSIBLINGS (one top-level tree; one instance of a top-level list / leaf-list)
+    for _ in range(cx.n(8, 120)):
+        idx += 1
+        s = gen_schema(rng, idx, depth=rng.choice([2, 3]))
+        g = Gen(rng, s, density=1.0, max_inst=4)
+        t = flag_tree(rng, g.tree())
+        rng.shuffle(t)                       # any kind of node first (libyang re-orders: the first of ITS order is printed)
+        add(s, t, "single:" + rng.choice(WDS), "single", rng.choice([None, b"2019-02-28"]))
     # 5. empty forest, single nodes
     s = gen_schema(rng, 9000)
     add(s, [], "explicit", "empty")
@@ -472,7 +483,7 @@ def classify(component, what, case):
         return None
     if case.get("f27") and case.get("stage") == "print-eint":
         return "F27"
-    if case.get("stage") == "tagged-annotation" and case.get("wd") in ("all-tag", "impl-tag"):
+    if case.get("stage") == "tagged-annotation" and (case.get("wd") or "").replace("single:", "") in ("all-tag", "impl-tag"):
         return "F330"
     if case.get("kind") in ("chunk-value", "chunk-population", "chunk-multi") and case.get("stage") == "length":
         return "F69"
@@ -539,6 +550,9 @@ def run_lybtree(cx):
         if r[:2] == ["err", "Crash"]:
             cx.count(key, True, "lybtree:%s:crash" % meta["kind"])
             continue
+        if r[:2] == ["err", "Schema"]:
+            cx.count(key, False, "lybtree:generated-schema-rejected")       # generator produced an invalid module (name clash): not a case
+            continue
         if r[0] != "ok":
             cx.count(key, True, "lybtree:%s:%s" % (meta["kind"], " ".join(r[:2])))
             # the printer fails: the model must fail too (the `_fails` witnesses), and it is a failure of the property
@@ -574,7 +588,7 @@ def run_lybtree(cx):
         mp = rm.get("p%d" % i, ["err", "NoReply"])
         if pi[:2] == ["err", "Crash"] or pm[:2] == ["err", "Crash"]:
             continue
-        orig = tg.tok(tg.untok(s, r[1]))
+        orig = tg.tok(tg.untok(s, r[1])[:1] if wd.startswith("single:") else tg.untok(s, r[1]))
         if pi == ["ok", want] and want != orig:
             # the `_fails` witness of the tagged modes on libyang itself (finding F330): the tree comes back with the annotation
             c2 = dict(c); c2["stage"] = "tagged-annotation"
